@@ -5,6 +5,11 @@ package main
 // latch, assumed for an arbitrary iteration).
 
 import (
+	"strings"
+	"encoding/hex"
+	"context"
+	"os"
+	"path/filepath"
 	"fmt"
 	"go/ast"
 	"go/constant"
@@ -175,6 +180,10 @@ type rootCtx struct {
 	events    []string
 	proxies   []*proxy
 	seenLens  []*Term
+	hashEmpty map[string]bool
+	proveCache map[string]bool
+	paramSyms map[string]bool
+	probeN    int
 }
 
 type Exec struct {
@@ -460,6 +469,10 @@ func (e *Exec) strLit(s string) *Term {
 		for i := 0; i < len(s); i++ {
 			e.vc.Assume(True, Eq(Select(StrArr(t), BVLitI(int64(i), 64)), BVLitI(int64(s[i]), 8)))
 		}
+	}
+	if e.seqFacts() && len(s) <= 64 {
+		// the literal as a sequence constant seqlit.<hex> (declared with its bytes on demand; spec files name it too)
+		e.vc.Assume(True, Eq(App("bseq.of", "BSeq", StrArr(t), bv64zero, BVLitI(int64(len(s)), 64)), Sym("seqlit."+hex.EncodeToString([]byte(s)), "BSeq")))
 	}
 	// distinct from other literals of the same length follows from the byte facts; for long ones state it
 	if len(s) > 48 {
@@ -1421,4 +1434,142 @@ func (e *Exec) fieldNonNil(p *Ptr) bool {
 		return true
 	}
 	return false
+}
+
+// proveNow asks the solver whether goal holds under the facts collected so far on the current path (short
+// timeout; used only to resolve heap reads over writes when building sequence-level facts; a "no" is safe).
+func (e *Exec) proveNow(goal *Term) bool {
+	if goal.IsTrue() {
+		return true
+	}
+	if goal.IsFalse() {
+		return false
+	}
+	key := fmt.Sprintf("%s|%s", e.g.String(), goal.String())
+	if e.root.proveCache == nil {
+		e.root.proveCache = map[string]bool{}
+	}
+	if v, ok := e.root.proveCache[key]; ok {
+		return v
+	}
+	o := &Obligation{Fn: e.vc.Fn, Name: "probe", Guard: e.g, Goal: goal, itemPos: len(e.vc.items), vc: e.vc}
+	text := o.SMT(false)
+	// probes use the quantifier-free relaxation (sound: fewer hypotheses) so that they answer at once
+	var rb strings.Builder
+	skip := 0
+	for _, line := range strings.Split(text, "\n") {
+		if skip > 0 {
+			skip += strings.Count(line, "(") - strings.Count(line, ")")
+			continue
+		}
+		if strings.HasPrefix(line, "(assert ") && (strings.Contains(line, "(forall ") || strings.Contains(line, "(exists ")) {
+			skip = strings.Count(line, "(") - strings.Count(line, ")")
+			continue
+		}
+		rb.WriteString(line + "\n")
+	}
+	text = rb.String()
+	e.root.probeN++
+	file := filepath.Join(ensureWorkDir(), fmt.Sprintf("probe_%s_%d.smt2", fileSafe.ReplaceAllString(trunc(e.vc.Fn, 60), "_"), e.root.probeN))
+	os.WriteFile(file, []byte(text), 0644)
+	r := runSolver(context.Background(), solvers[0], file, 2)
+	os.Remove(file)
+	res := r.verdict == "unsat"
+	if os.Getenv("GOWP_PROBELOG") != "" {
+		fmt.Fprintf(os.Stderr, "probe %s %.2fs %s %s\n", e.vc.Fn, r.secs, r.verdict, trunc(goal.String(), 120))
+	}
+	e.root.proveCache[key] = res
+	return res
+}
+
+// canonArr resolves the backing array of reference ref in heap term h through the chain of stores, asking the
+// solver whether the written references are equal to / different from ref. The result is equal to
+// (select h ref) but syntactically stable across unrelated writes.
+func (e *Exec) canonArr(h *Term, ref *Term) *Term {
+	cur := h
+	for depth := 0; depth < 40; depth++ {
+		t := cur
+		if t.Op == "sym" {
+			if d, ok := e.vc.defs[t.Name]; ok {
+				t = d
+			}
+		}
+		if t.Op == "ite" {
+			if e.proveNow(t.Args[0]) {
+				cur = t.Args[1]
+				continue
+			}
+			if e.proveNow(Not(t.Args[0])) {
+				cur = t.Args[2]
+				continue
+			}
+			break
+		}
+		if t.Op != "store" {
+			break
+		}
+		idx := t.Args[1]
+		if eq, neq := e.refRel(idx, ref); eq {
+			return t.Args[2]
+		} else if neq {
+			cur = t.Args[0]
+			continue
+		}
+		if same(idx, ref) || e.proveNow(Eq(idx, ref)) {
+			return t.Args[2]
+		}
+		if e.proveNow(Neq(idx, ref)) {
+			cur = t.Args[0]
+			continue
+		}
+		break
+	}
+	return Select(cur, ref)
+}
+
+// refBase splits an Int reference term into (base, constant offset): ac!3, (+ ac!3 2), (+ (+ ac!3 1) 1) ...
+func refBase(t *Term) (string, int64, bool) {
+	off := int64(0)
+	for {
+		if t.Op == "+" && len(t.Args) == 2 && t.Args[1].IsLit() && t.Args[1].Lit.IsInt64() {
+			off += t.Args[1].Lit.Int64()
+			t = t.Args[0]
+			continue
+		}
+		break
+	}
+	if t.Op == "sym" {
+		return t.Name, off, true
+	}
+	if t.IsLit() && t.Lit.IsInt64() {
+		return "#lit", off + t.Lit.Int64(), true
+	}
+	return "", 0, false
+}
+
+// refRel: syntactic (dis)equality of two references. Allocation references ac!k + c are at least the entry
+// allocation counter, references held by the function's parameters are below it.
+func (e *Exec) refRel(a, b *Term) (eq, neq bool) {
+	if same(a, b) {
+		return true, false
+	}
+	ba, oa, oka := refBase(a)
+	bb, ob, okb := refBase(b)
+	if oka && okb && ba == bb {
+		return oa == ob, oa != ob
+	}
+	isAlloc := func(base string, ok bool) bool { return ok && strings.HasPrefix(base, "ac!") }
+	isParam := func(t *Term) bool {
+		if t.Op == "sym" {
+			return e.root.paramSyms[t.Name]
+		}
+		if (t.Op == "s.ref" || t.Op == "i.ref") && len(t.Args) == 1 && t.Args[0].Op == "sym" {
+			return e.root.paramSyms[t.Args[0].Name]
+		}
+		return false
+	}
+	if (isAlloc(ba, oka) && isParam(b)) || (isAlloc(bb, okb) && isParam(a)) {
+		return false, true
+	}
+	return false, false
 }
